@@ -235,6 +235,8 @@ fn build(tier: Tier) -> Vec<Scenario> {
             }
         }
     }
+    // slow sources and timed batching: control elements still reach every replica in time
+    out.extend(crate::props::timed::scenarios("C17", tier == Tier::Quick, "C17"));
     out
 }
 
